@@ -1,0 +1,563 @@
+//go:build verif
+
+package sml
+
+import (
+	"bytes"
+	"fmt"
+	"math"
+	"sync"
+
+	"github.com/wolimst/lib-secs2-hsms-go/pkg/ast"
+)
+
+// Contracts and specification functions for the SML parser (see /verif/DESIGN.md).
+// The parser and lexer objects are private mutable state of one Parse call ("owns").
+
+// specSizeOK: a size declaration [lower..upper] (upper == -1: no upper bound) admits size.
+func specSizeOK(size int, lower int, upper int) bool {
+	return lower <= size && (upper == -1 || size <= upper)
+}
+
+// Shape of the tokens the lexer emits, as far as the parser relies on it (assumed through the trusted contract of peek;
+// the lexer contracts state the same facts where they are within reach).
+//@ predicate tokWF(typ int, val string) = (typ == tokenTypeStreamFunction ==> len(val) >= 4 && val[0] == 'S' && 2 <= str_index(val, "F") && str_index(val, "F") <= len(val) - 2)
+//@   && (typ == tokenTypeDataItemSize ==> len(val) >= 3 && (str_index(val, "..") == -1 || (1 <= str_index(val, "..") && str_index(val, "..") <= len(val) - 3)))
+//@   && (typ == tokenTypeQuotedString ==> len(val) >= 2)
+//@   && (typ == tokenTypeMessageName ==> !has_space_rune(val))
+//@   && (typ == tokenTypeDirection ==> val == "H->E" || val == "H<-E" || val == "H<->E")
+//@   && (typ == tokenTypeWaitBit ==> val == "W" || val == "[W]")
+//@   && (typ == tokenTypeDataItemType ==> val == "L" || val == "A" || val == "B" || val == "BOOLEAN" || val == "F4" || val == "F8" || val == "I1" || val == "I2" || val == "I4" || val == "I8" || val == "U1" || val == "U2" || val == "U4" || val == "U8")
+
+//@ func (*parser).errorf
+//@   property C05 C06 C15
+//@   owns sml.parser, sml.parseError
+//@   modifies p.errors, p.errors[0]
+//@   ensures len(p.errors) == old(len(p.errors)) + 1
+//@   ensures p.errors[len(p.errors)-1].line == t.line && p.errors[len(p.errors)-1].col == t.col
+//@   ensures forall k int :: 0 <= k && k < old(len(p.errors)) ==> p.errors[k].line == old(p.errors[k].line) && p.errors[k].col == old(p.errors[k].col)
+
+//@ func (*parser).warningf
+//@   property C06
+//@   owns sml.parser, sml.parseError
+//@   modifies p.warnings, p.warnings[0]
+//@   ensures len(p.warnings) == old(len(p.warnings)) + 1
+//@   ensures p.warnings[len(p.warnings)-1].line == t.line && p.warnings[len(p.warnings)-1].col == t.col
+
+//@ func (*parser).peek
+//@   trusted
+//@   owns sml.parser, sml.lexer, sml.token
+//@   modifies p.tokenQueue, p.tokenQueue[0], p.lexer
+//@   ensures len(p.tokenQueue) >= 1 && result == p.tokenQueue[0] && result.typ != tokenTypeComment && tokWF(result.typ, result.val)
+//@   ensures old(len(p.tokenQueue)) >= 1 ==> p.tokenQueue == old(p.tokenQueue) && result == old(p.tokenQueue[0])
+//@   ensures ref(p.tokenQueue) == old(ref(p.tokenQueue)) || fresh(p.tokenQueue)
+
+//@ func (*parser).acceptAny
+//@   property C06
+//@   owns sml.parser, sml.lexer, sml.token
+//@   modifies p.tokenQueue, p.tokenQueue[0], p.lexer
+//@   ensures result.typ != tokenTypeComment && tokWF(result.typ, result.val)
+//@   ensures old(len(p.tokenQueue)) >= 1 ==> result == old(p.tokenQueue[0])
+//@   ensures ref(p.tokenQueue) == old(ref(p.tokenQueue)) || fresh(p.tokenQueue)
+
+//@ func (*parser).accept
+//@   property C06
+//@   owns sml.parser, sml.lexer, sml.token
+//@   modifies p.tokenQueue, p.tokenQueue[0], p.lexer
+//@   ensures ok == (t.typ == typ) && t.typ != tokenTypeComment && tokWF(t.typ, t.val)
+//@   ensures ref(p.tokenQueue) == old(ref(p.tokenQueue)) || fresh(p.tokenQueue)
+
+//@ func (*parser).checkDataItemSizeError
+//@   property C15
+//@   owns sml.parser, sml.parseError
+//@   modifies p.errors, p.errors[0]
+//@   ensures specSizeOK(size, lowerLimit, upperLimit) ==> len(p.errors) == old(len(p.errors))
+//@   ensures !specSizeOK(size, lowerLimit, upperLimit) ==> len(p.errors) == old(len(p.errors)) + 1 && p.errors[len(p.errors)-1].line == t.line && p.errors[len(p.errors)-1].col == t.col
+
+//@ func (*parser).getDataItemValueTokens
+//@   property C05 C06
+//@   owns sml.parser, sml.lexer, sml.token
+//@   modifies p.tokenQueue, p.tokenQueue[0], p.lexer
+//@   ensures fresh(result)
+//@   ensures forall k int :: 0 <= k && k < len(result) ==> result[k].typ != tokenTypeComment
+//@   loop 1
+//@     invariant fresh(tokens) && ref(p.tokenQueue) != ref(tokens)
+//@     invariant forall k int :: 0 <= k && k < len(tokens) ==> tokens[k].typ != tokenTypeComment
+
+//@ func (*parser).parseInt
+//@   property C05
+//@   owns sml.parser, sml.lexer, sml.token, sml.parseError
+//@   maypanic
+//@   modifies p.tokenQueue, p.tokenQueue[0], p.lexer, p.errors, p.errors[0], p.variableNames
+//@   requires specIsIntW(byteSize)
+//@   let e0 = old(len(p.errors))
+//@   ensures ok && len(p.errors) == e0 ==> typeis(item, *IntNode) && cast(item, *IntNode).byteSize == byteSize
+//@   ensures len(p.errors) >= e0
+//@   ensures !ok ==> len(p.errors) > e0
+//@   ensures item != nil
+//@   loop 1
+//@     invariant 0 <= rangeindex+1 && rangeindex+1 <= len(rangeover) && fresh(values) && fresh(rangeover) && len(values) == rangeindex+1 && e0 <= len(p.errors)
+//@     invariant len(p.errors) == e0 ==> forall k int :: 0 <= k && k <= rangeindex && rangeover[k].typ == tokenTypeNumber ==> parse_ok(rangeover[k].val, 0, byteSize*8, 1) && isint(values[k]) && ival(values[k]) == parse_val(rangeover[k].val, 0, byteSize*8, 1)
+//@     invariant len(p.errors) == e0 ==> forall k int :: 0 <= k && k <= rangeindex && rangeover[k].typ == tokenTypeVariable ==> typeis(values[k], string) && sval(values[k]) == rangeover[k].val
+//@     invariant len(p.errors) == e0 ==> forall k int :: 0 <= k && k <= rangeindex ==> rangeover[k].typ == tokenTypeNumber || rangeover[k].typ == tokenTypeVariable
+
+//@ func (*parser).parseUint
+//@   property C05
+//@   owns sml.parser, sml.lexer, sml.token, sml.parseError
+//@   maypanic
+//@   modifies p.tokenQueue, p.tokenQueue[0], p.lexer, p.errors, p.errors[0], p.variableNames
+//@   requires specIsIntW(byteSize)
+//@   let e0 = old(len(p.errors))
+//@   ensures ok && len(p.errors) == e0 ==> typeis(item, *UintNode) && cast(item, *UintNode).byteSize == byteSize
+//@   ensures len(p.errors) >= e0
+//@   ensures !ok ==> len(p.errors) > e0
+//@   ensures item != nil
+//@   loop 1
+//@     invariant 0 <= rangeindex+1 && rangeindex+1 <= len(rangeover) && fresh(values) && fresh(rangeover) && len(values) == rangeindex+1 && e0 <= len(p.errors)
+//@     invariant len(p.errors) == e0 ==> forall k int :: 0 <= k && k <= rangeindex && rangeover[k].typ == tokenTypeNumber ==> parse_ok(rangeover[k].val, 0, byteSize*8, 0) && isint(values[k]) && ival(values[k]) == parse_val(rangeover[k].val, 0, byteSize*8, 0)
+//@     invariant len(p.errors) == e0 ==> forall k int :: 0 <= k && k <= rangeindex && rangeover[k].typ == tokenTypeVariable ==> typeis(values[k], string) && sval(values[k]) == rangeover[k].val
+//@     invariant len(p.errors) == e0 ==> forall k int :: 0 <= k && k <= rangeindex ==> rangeover[k].typ == tokenTypeNumber || rangeover[k].typ == tokenTypeVariable
+
+//@ func (*parser).parseFloat
+//@   property C05
+//@   owns sml.parser, sml.lexer, sml.token, sml.parseError
+//@   maypanic
+//@   modifies p.tokenQueue, p.tokenQueue[0], p.lexer, p.errors, p.errors[0], p.variableNames
+//@   requires specIsFloatW(byteSize)
+//@   let e0 = old(len(p.errors))
+//@   ensures ok && len(p.errors) == e0 ==> typeis(item, *FloatNode) && cast(item, *FloatNode).byteSize == byteSize
+//@   ensures len(p.errors) >= e0
+//@   ensures !ok ==> len(p.errors) > e0
+//@   ensures item != nil
+//@   loop 1
+//@     invariant 0 <= rangeindex+1 && rangeindex+1 <= len(rangeover) && fresh(values) && fresh(rangeover) && len(values) == rangeindex+1 && e0 <= len(p.errors)
+//@     invariant len(p.errors) == e0 ==> forall k int :: 0 <= k && k <= rangeindex && rangeover[k].typ == tokenTypeNumber ==> parsef_ok(rangeover[k].val, byteSize*8) && isfloat(values[k]) && fval(values[k]) == parsef_val(rangeover[k].val, byteSize*8)
+//@     invariant len(p.errors) == e0 ==> forall k int :: 0 <= k && k <= rangeindex && rangeover[k].typ == tokenTypeVariable ==> typeis(values[k], string) && sval(values[k]) == rangeover[k].val
+//@     invariant len(p.errors) == e0 ==> forall k int :: 0 <= k && k <= rangeindex ==> rangeover[k].typ == tokenTypeNumber || rangeover[k].typ == tokenTypeVariable
+
+//@ func (*parser).parseBinary
+//@   property C05
+//@   owns sml.parser, sml.lexer, sml.token, sml.parseError
+//@   maypanic
+//@   modifies p.tokenQueue, p.tokenQueue[0], p.lexer, p.errors, p.errors[0], p.variableNames
+//@   let e0 = old(len(p.errors))
+//@   ensures ok && len(p.errors) == e0 ==> typeis(item, *BinaryNode)
+//@   ensures len(p.errors) >= e0
+//@   ensures !ok ==> len(p.errors) > e0
+//@   ensures item != nil
+//@   loop 1
+//@     invariant 0 <= rangeindex+1 && rangeindex+1 <= len(rangeover) && fresh(values) && fresh(rangeover) && len(values) == rangeindex+1 && e0 <= len(p.errors)
+//@     invariant len(p.errors) == e0 ==> forall k int :: 0 <= k && k <= rangeindex && rangeover[k].typ == tokenTypeNumber ==> parse_ok(rangeover[k].val, 0, 0, 1) && typeis(values[k], int) && ival(values[k]) == parse_val(rangeover[k].val, 0, 0, 1) && 0 <= ival(values[k]) && ival(values[k]) < 256
+//@     invariant len(p.errors) == e0 ==> forall k int :: 0 <= k && k <= rangeindex && rangeover[k].typ == tokenTypeVariable ==> typeis(values[k], string) && sval(values[k]) == rangeover[k].val
+//@     invariant len(p.errors) == e0 ==> forall k int :: 0 <= k && k <= rangeindex ==> rangeover[k].typ == tokenTypeNumber || rangeover[k].typ == tokenTypeVariable
+
+//@ func (*parser).parseBoolean
+//@   property C05
+//@   owns sml.parser, sml.lexer, sml.token, sml.parseError
+//@   maypanic
+//@   modifies p.tokenQueue, p.tokenQueue[0], p.lexer, p.errors, p.errors[0], p.variableNames
+//@   let e0 = old(len(p.errors))
+//@   ensures ok && len(p.errors) == e0 ==> typeis(item, *BooleanNode)
+//@   ensures len(p.errors) >= e0
+//@   ensures !ok ==> len(p.errors) > e0
+//@   ensures item != nil
+//@   loop 1
+//@     invariant 0 <= rangeindex+1 && rangeindex+1 <= len(rangeover) && fresh(values) && fresh(rangeover) && len(values) == rangeindex+1 && e0 <= len(p.errors)
+//@     invariant len(p.errors) == e0 ==> forall k int :: 0 <= k && k <= rangeindex && rangeover[k].typ == tokenTypeBool ==> typeis(values[k], bool) && bval(values[k]) == (rangeover[k].val == "T")
+//@     invariant len(p.errors) == e0 ==> forall k int :: 0 <= k && k <= rangeindex && rangeover[k].typ == tokenTypeVariable ==> typeis(values[k], string) && sval(values[k]) == rangeover[k].val
+//@     invariant len(p.errors) == e0 ==> forall k int :: 0 <= k && k <= rangeindex ==> rangeover[k].typ == tokenTypeBool || rangeover[k].typ == tokenTypeVariable
+
+//@ func (*parser).parseStreamFunctionCode
+//@   property C06
+//@   owns sml.parser, sml.lexer, sml.token, sml.parseError
+//@   modifies p.tokenQueue, p.lexer, p.errors
+//@   ensures ok ==> 0 <= stream && stream < 128 && 0 <= function && function < 256
+//@   ensures !ok ==> len(p.errors) > old(len(p.errors))
+//@   ensures len(p.errors) >= old(len(p.errors))
+
+//@ func (*parser).parseDataItemSize
+//@   property C15 C06
+//@   owns sml.parser, sml.lexer, sml.token, sml.parseError
+//@   modifies p.tokenQueue, p.lexer
+//@   let v = result.val
+//@   let i = str_index(v, "..")
+//@   ensures result.typ == tokenTypeDataItemSize && i == -1 ==> result1 == result2
+//@   ensures result.typ == tokenTypeDataItemSize && i == -1 && parse_ok(substr(v, 1, len(v)-1), 10, 0, 1) ==> result1 == parse_val(substr(v, 1, len(v)-1), 10, 0, 1)
+//@   ensures result.typ == tokenTypeDataItemSize && i >= 0 && parse_ok(substr(v, 1, i), 10, 0, 1) ==> result1 == parse_val(substr(v, 1, i), 10, 0, 1)
+//@   ensures result.typ == tokenTypeDataItemSize && i >= 0 && parse_ok(substr(v, i+2, len(v)-1), 10, 0, 1) ==> result2 == parse_val(substr(v, i+2, len(v)-1), 10, 0, 1)
+//@   ensures result.typ == tokenTypeDataItemSize && i >= 0 && !parse_ok(substr(v, i+2, len(v)-1), 10, 0, 1) && !parse_range(substr(v, i+2, len(v)-1), 10, 0, 1) ==> result2 == -1
+//@   ensures result.typ != tokenTypeDataItemSize ==> result1 == 0 && result2 == -1
+
+//@ func (*parser).parseASCII
+//@   property C05 C15 C04
+//@   owns sml.parser, sml.lexer, sml.token, sml.parseError
+//@   maypanic
+//@   modifies p.tokenQueue, p.lexer, p.errors, p.variableNames, p.skipSizeCheck
+//@   let e0 = old(len(p.errors))
+//@   ensures !ok ==> len(p.errors) > e0
+//@   ensures len(p.errors) >= e0
+//@   ensures ok && len(p.errors) == e0 ==> typeis(item, *ASCIINode)
+//@   ensures item != nil
+//@   ensures ok && len(p.errors) == e0 && !cast(item, *ASCIINode).isValue ==> cast(item, *ASCIINode).variable.minLength == minLength && cast(item, *ASCIINode).variable.maxLength == maxLength
+//@   loop 1
+//@     invariant 0 <= rangeindex+1 && rangeindex+1 <= len(rangeover) && fresh(rangeover) && e0 <= len(p.errors)
+//@     invariant len(p.errors) == e0 ==> forall k int :: 0 <= k && k <= rangeindex && rangeover[k].typ == tokenTypeNumber ==> parse_ok(rangeover[k].val, 0, 0, 0) && parse_val(rangeover[k].val, 0, 0, 0) <= 127
+//@     invariant len(p.errors) == e0 ==> forall k int :: 0 <= k && k <= rangeindex ==> rangeover[k].typ == tokenTypeNumber || rangeover[k].typ == tokenTypeQuotedString
+//@   loop 2
+//@     invariant e0 <= len(p.errors) && 0 <= iterpos
+
+//@ func (*parser).parseList
+//@   property C05 C06
+//@   owns sml.parser, sml.lexer, sml.token, sml.parseError, map[string]bool
+//@   maypanic
+//@   modifies p.tokenQueue, p.lexer, p.errors, p.warnings, p.variableNames, p.ellipsisCount, p.skipSizeCheck
+//@   let e0 = old(len(p.errors))
+//@   ensures !ok ==> len(p.errors) > e0
+//@   ensures len(p.errors) >= e0
+//@   ensures item != nil
+//@   loop 1
+//@     invariant e0 <= len(p.errors) && fresh(values)
+
+//@ func (*parser).parseDataItem
+//@   property C05 C06 C15
+//@   recover
+//@   owns sml.parser, sml.lexer, sml.token, sml.parseError
+//@   modifies p.tokenQueue, p.lexer, p.errors, p.warnings, p.variableNames, p.ellipsisCount, p.skipSizeCheck
+//@   panic_invariant len(p.errors) >= old(len(p.errors))
+//@   let e0 = old(len(p.errors))
+//@   ensures !ok ==> len(p.errors) > e0
+//@   ensures len(p.errors) >= e0
+//@   ensures item != nil
+
+//@ func (*parser).parseMessageText
+//@   property C06
+//@   owns sml.parser, sml.lexer, sml.token, sml.parseError
+//@   modifies p.tokenQueue, p.lexer, p.errors, p.warnings, p.variableNames, p.ellipsisCount, p.skipSizeCheck
+//@   ensures !ok ==> len(p.errors) > old(len(p.errors))
+//@   ensures len(p.errors) >= old(len(p.errors))
+//@   ensures item != nil
+
+//@ func (*parser).parseMessage
+//@   property C06 C19 C04
+//@   owns sml.parser, sml.lexer, sml.token, sml.parseError
+//@   modifies p.tokenQueue, p.lexer, p.errors, p.warnings, p.variableNames, p.ellipsisCount, p.skipSizeCheck, p.messages
+//@   reset_first p.variableNames, p.ellipsisCount
+//@   ensures !ok ==> len(p.errors) > old(len(p.errors)) && len(p.messages) == old(len(p.messages))
+//@   ensures ok ==> len(p.messages) == old(len(p.messages)) + 1
+//@   ensures len(p.errors) >= old(len(p.errors))
+//@   ensures forall k int :: 0 <= k && k < old(len(p.messages)) ==> p.messages[k] == old(p.messages[k])
+//@   ensures ref(p.messages) == old(ref(p.messages)) || fresh(p.messages)
+
+//@ func (*parseError).string
+//@   property C06
+//@   ensures true
+
+//@ func Parse
+//@   property C06 C19 C11 C04
+//@   owns sml.parser, sml.lexer, sml.token, sml.parseError, map[string]bool
+//@   ensures len(errors) > 0 ==> len(messages) == 0
+//@   ensures fresh(errors) && fresh(warnings)
+//@   rac_ensures len(errors) == 0 ==> racFixedPoint(messages)
+//@   rac_ensures racDiagnosticsOK(input, errors) && racDiagnosticsOK(input, warnings)
+//@   rac_ensures racPrintedFormsReparse()
+//@   loop 1
+//@     invariant fresh(p) && fresh(p.messages)
+//@   loop 2
+//@     invariant fresh(errors) && 0 <= rangeindex+1 && len(errors) == rangeindex+1 && rangeindex+1 <= len(rangeover) && len(rangeover) == len(p.errors) && fresh(p.messages)
+//@   loop 3
+//@     invariant fresh(warnings) && fresh(errors) && 0 <= rangeindex+1 && rangeindex+1 <= len(rangeover) && len(errors) == len(p.errors) && fresh(p.messages)
+
+// ---------------------------------------------------------------------------------------------
+// Lexer. lexOK is the invariant every lexer method keeps: the token being scanned is a window of the input.
+
+//@ predicate lexOK(l *lexer) = l != nil && 0 <= l.start && l.start <= l.pos && l.pos <= len(l.input) && l.tokens != nil && !closed(l.tokens)
+
+//@ func (*lexer).acceptRun
+//@   property C06 C15
+//@   owns sml.lexer
+//@   modifies l.pos, l.width
+//@   requires lexOK(l)
+//@   ensures lexOK(l) && old(l.pos) <= l.pos && l.start == old(l.start) && sent(l.tokens) == old(sent(l.tokens))
+//@   loop 1
+//@     invariant lexOK(l) && old(l.pos) <= l.pos && l.start == old(l.start) && sent(l.tokens) == old(sent(l.tokens))
+
+//@ func (*lexer).emitSpaceRemoved
+//@   property C06 C15
+//@   owns sml.lexer, sml.token
+//@   modifies l.start
+//@   requires lexOK(l)
+//@   ensures lexOK(l) && l.start == l.pos && l.pos == old(l.pos) && sent(l.tokens) == old(sent(l.tokens)) + 1 && lastsent(l.tokens).typ == t
+//@   loop 1
+//@     invariant fresh(val) && 0 <= iterpos
+
+//@ func lexEOF
+//@   property C06
+//@   owns sml.lexer, sml.token
+//@   modifies l.start
+//@   requires lexOK(l)
+//@   ensures sent(l.tokens) == old(sent(l.tokens)) + 1 && lastsent(l.tokens).typ == tokenTypeEOF && closed(l.tokens)
+
+//@ func (*lexer).errorf
+//@   property C06
+//@   owns sml.lexer, sml.token
+//@   requires lexOK(l)
+//@   ensures sent(l.tokens) == old(sent(l.tokens)) + 1 && lastsent(l.tokens).typ == tokenTypeError && closed(l.tokens)
+
+//@ func lexQuotedString
+//@   property C05 C06 C04
+//@   owns sml.lexer, sml.token
+//@   modifies l.pos, l.start, l.width
+//@   requires lexOK(l) && l.start == l.pos && l.pos < len(l.input) && l.input[l.pos] == '"'
+//@   let tok = lastsent(l.tokens)
+//@   ensures sent(l.tokens) == old(sent(l.tokens)) + 1
+//@   ensures tok.typ == tokenTypeQuotedString || tok.typ == tokenTypeError
+//@   ensures tok.typ == tokenTypeQuotedString ==> lexOK(l) && l.start == l.pos && tok.val == substr(l.input, old(l.pos), l.pos)
+//@   ensures tok.typ == tokenTypeQuotedString ==> len(tok.val) >= 2 && tok.val[0] == '"' && tok.val[len(tok.val)-1] == '"'
+//@   ensures tok.typ == tokenTypeQuotedString ==> forall k int :: 1 <= k && k < len(tok.val) - 1 ==> tok.val[k] != '"' && tok.val[k] != 10 && tok.val[k] != 13
+
+//@ func lexComment
+//@   property C08 C06
+//@   owns sml.lexer, sml.token
+//@   modifies l.pos, l.start
+//@   requires lexOK(l) && l.pos + 2 <= len(l.input) && l.input[l.pos] == '/' && l.input[l.pos+1] == '/'
+//@   let p0 = old(l.pos)
+//@   let nl = str_index(substr(l.input, p0, len(l.input)), "\n")
+//@   let tok = lastsent(l.tokens)
+//@   ensures sent(l.tokens) == old(sent(l.tokens)) + 1 && tok.typ == tokenTypeComment && lexOK(l) && l.start == l.pos
+//@   ensures tok.val == substr(l.input, old(l.start), l.pos) && p0 + 2 <= l.pos
+//@   ensures nl < 0 ==> l.pos == len(l.input)
+//@   ensures nl >= 0 ==> l.pos <= p0 + nl && result == old(l.lastState)
+//@   ensures nl >= 0 ==> forall k int :: l.pos <= k && k < p0 + nl ==> l.input[k] == ' ' || l.input[k] == 9 || l.input[k] == 13
+//@   ensures nl >= 0 && l.pos > p0 + 2 ==> !(l.input[l.pos-1] == ' ' || l.input[l.pos-1] == 9 || l.input[l.pos-1] == 13)
+//@   loop 1
+//@     invariant 2 <= i && i <= nl && nl >= 0 && l.pos == p0 && l.start == old(l.start) && sent(l.tokens) == old(sent(l.tokens)) && lexOK(l)
+//@     invariant forall k int :: p0 + i <= k && k < p0 + nl ==> l.input[k] == ' ' || l.input[k] == 9 || l.input[k] == 13
+
+//@ func lexNumber
+//@   property C05 C06 C04
+//@   owns sml.lexer, sml.token
+//@   modifies l.pos, l.start, l.width
+//@   requires lexOK(l) && l.start == l.pos
+//@   let tok = lastsent(l.tokens)
+//@   ensures sent(l.tokens) == old(sent(l.tokens)) + 1
+//@   ensures tok.typ == tokenTypeNumber || tok.typ == tokenTypeError
+//@   ensures tok.typ == tokenTypeNumber ==> lexOK(l) && l.start == l.pos && tok.val == substr(l.input, old(l.pos), l.pos)
+
+//@ func lexDataItemSize
+//@   property C15 C06
+//@   owns sml.lexer, sml.token
+//@   modifies l.pos, l.start, l.width
+//@   requires lexOK(l) && l.start == l.pos
+//@   let tok = lastsent(l.tokens)
+//@   ensures sent(l.tokens) == old(sent(l.tokens)) + 1
+//@   ensures tok.typ == tokenTypeDataItemSize || tok.typ == tokenTypeError
+//@   ensures tok.typ == tokenTypeDataItemSize ==> lexOK(l) && l.start == l.pos
+
+//@ func lexMessageHeader
+//@   property C06 C08 C19 C04
+//@   owns sml.lexer, sml.token
+//@   modifies l.pos, l.start, l.width
+//@   requires lexOK(l)
+//@   ensures sent(l.tokens) <= old(sent(l.tokens)) + 1 && sent(l.tokens) >= old(sent(l.tokens))
+//@   ensures !closed(l.tokens) ==> lexOK(l)
+//@   ensures sent(l.tokens) == old(sent(l.tokens)) + 1 && lastsent(l.tokens).typ == tokenTypeMessageEnd ==> result == lexMessageHeader && l.start == l.pos
+//@   loop 1
+//@     invariant lexOK(l) && sent(l.tokens) == old(sent(l.tokens))
+//@   loop 2
+//@     invariant lexOK(l) && sent(l.tokens) == old(sent(l.tokens)) && l.start < l.pos
+
+//@ func lexMessageText
+//@   property C06 C08 C19
+//@   owns sml.lexer, sml.token
+//@   modifies l.pos, l.start, l.width
+//@   requires lexOK(l)
+//@   ensures sent(l.tokens) <= old(sent(l.tokens)) + 1 && sent(l.tokens) >= old(sent(l.tokens))
+//@   ensures !closed(l.tokens) ==> lexOK(l)
+//@   ensures sent(l.tokens) == old(sent(l.tokens)) + 1 && lastsent(l.tokens).typ == tokenTypeMessageEnd ==> result == lexMessageHeader && l.start == l.pos
+//@   loop 1
+//@     invariant lexOK(l) && sent(l.tokens) == old(sent(l.tokens))
+
+// ---------------------------------------------------------------------------------------------
+// Run-time oracles (rac_ensures only: bounded search and replay, never counted as proved).
+
+// racFixedPoint: printing each returned message and parsing it again returns exactly that message (C04, second sentence).
+func racFixedPoint(msgs []*ast.DataMessage) bool {
+	for _, m := range msgs {
+		again, errs, warns := Parse(m.String())
+		if len(errs) != 0 || len(warns) != 0 || len(again) != 1 {
+			return false
+		}
+		a := again[0]
+		if a.String() != m.String() || a.Name() != m.Name() || a.StreamCode() != m.StreamCode() || a.FunctionCode() != m.FunctionCode() ||
+			a.WaitBit() != m.WaitBit() || a.Direction() != m.Direction() || len(a.Variables()) != len(m.Variables()) {
+			return false
+		}
+		for i, v := range m.Variables() {
+			if a.Variables()[i] != v {
+				return false
+			}
+		}
+	}
+	return true
+}
+
+// racDiagnosticsOK: every diagnostic reads "Ln x, Col y: text" with x, y >= 1 and x not beyond the last line of the input.
+func racDiagnosticsOK(input string, diags []string) bool {
+	lines := 1
+	for i := 0; i < len(input); i++ {
+		if input[i] == '\n' {
+			lines++
+		}
+	}
+	for _, d := range diags {
+		var ln, col int
+		if n, err := fmt.Sscanf(d, "Ln %d, Col %d:", &ln, &col); err != nil || n != 2 || ln < 1 || col < 1 || ln > lines {
+			return false
+		}
+	}
+	return true
+}
+
+// racPrintedFormsReparse (C04, first sentence; bounded): every message of a fixed enumerated family, printed and parsed again,
+// gives exactly one message, no errors, no warnings, and the same header fields, variables, printed form and bytes.
+// The family (racMessagePool) is independent of the input of the call it is attached to; it is evaluated once per process.
+var (
+	racPoolOnce sync.Once
+	racPoolOK   bool
+	racPoolWhy  string
+)
+
+func racPrintedFormsReparse() bool {
+	racPoolOnce.Do(func() {
+		racPoolOK = true
+		pool := racMessagePool()
+		fmt.Println("GOVC-COUNT racPrintedFormsReparse messages printed and re-parsed:", len(pool))
+		for _, m := range pool {
+			if why := racReparses(m); why != "" {
+				racPoolOK = false
+				racPoolWhy = why
+				fmt.Println("GOVC-NOTE racPrintedFormsReparse:", why)
+				return
+			}
+		}
+	})
+	return racPoolOK
+}
+
+func racReparses(m *ast.DataMessage) (why string) {
+	defer func() {
+		if r := recover(); r != nil {
+			why = fmt.Sprintf("panic %v while re-parsing %q", r, m.String())
+		}
+	}()
+	text := m.String()
+	again, errs, warns := Parse(text)
+	if len(errs) != 0 || len(warns) != 0 || len(again) != 1 {
+		return fmt.Sprintf("%q re-parses to %d messages, errors %v, warnings %v", text, len(again), errs, warns)
+	}
+	a := again[0]
+	if a.String() != text || a.Name() != m.Name() || a.StreamCode() != m.StreamCode() || a.FunctionCode() != m.FunctionCode() ||
+		a.WaitBit() != m.WaitBit() || a.Direction() != m.Direction() || fmt.Sprint(a.Variables()) != fmt.Sprint(m.Variables()) {
+		return fmt.Sprintf("%q re-parses to a different message %q (header %q / %q, variables %v / %v)", text, a.String(), m.Header(), a.Header(), m.Variables(), a.Variables())
+	}
+	if len(m.Variables()) == 0 {
+		sb := []byte{1, 2, 3, 4}
+		x, y := m.SetSessionIDAndSystemBytes(7, sb), a.SetSessionIDAndSystemBytes(7, sb)
+		if m.WaitBit() == "optional" {
+			w := m.FunctionCode()%2 == 1
+			x, y = x.SetWaitBit(w), y.SetWaitBit(w)
+		}
+		if !bytes.Equal(x.ToBytes(), y.ToBytes()) {
+			return fmt.Sprintf("%q re-parses to a message with different bytes", text)
+		}
+	}
+	return ""
+}
+
+func racItemPool() []ast.ItemNode {
+	var items []ast.ItemNode
+	add := func(f func() ast.ItemNode) {
+		defer func() { recover() }()
+		items = append(items, f())
+	}
+	add(func() ast.ItemNode { return ast.NewEmptyItemNode() })
+	// every ASCII character alone, doubled, and between printable neighbours
+	for c := 0; c < 128; c++ {
+		ch := string(rune(c))
+		add(func() ast.ItemNode { return ast.NewASCIINode(ch) })
+		add(func() ast.ItemNode { return ast.NewASCIINode(ch + ch) })
+		add(func() ast.ItemNode { return ast.NewASCIINode("a" + ch + "b" + ch) })
+	}
+	add(func() ast.ItemNode { return ast.NewASCIINode("") })
+	add(func() ast.ItemNode { return ast.NewASCIINode("say \"hi\" \\ 0x41 <A> // no /* comment */") })
+	add(func() ast.ItemNode { return ast.NewASCIINodeVariable("v", 0, -1) })
+	add(func() ast.ItemNode { return ast.NewASCIINodeVariable("v_1", 3, 3) })
+	add(func() ast.ItemNode { return ast.NewASCIINodeVariable("_v", 2, 5) })
+	add(func() ast.ItemNode { return ast.NewASCIINodeVariable("v", 0, 7) })
+	add(func() ast.ItemNode { return ast.NewASCIINodeVariable("v", 4, -1) })
+	add(func() ast.ItemNode { return ast.NewBinaryNode() })
+	add(func() ast.ItemNode { return ast.NewBinaryNode(0, 1, 127, 128, 255) })
+	add(func() ast.ItemNode { return ast.NewBinaryNode(7, "bv1", 9, "bv2") })
+	add(func() ast.ItemNode { return ast.NewBooleanNode() })
+	add(func() ast.ItemNode { return ast.NewBooleanNode(true, false, "flag", true) })
+	add(func() ast.ItemNode { return ast.NewIntNode(1) })
+	add(func() ast.ItemNode { return ast.NewIntNode(1, -128, 0, 127, "iv") })
+	add(func() ast.ItemNode { return ast.NewIntNode(2, -32768, 32767) })
+	add(func() ast.ItemNode { return ast.NewIntNode(4, math.MinInt32, math.MaxInt32) })
+	add(func() ast.ItemNode { return ast.NewIntNode(8, int64(math.MinInt64), int64(math.MaxInt64), "big") })
+	add(func() ast.ItemNode { return ast.NewUintNode(1, 0, 255, "uv") })
+	add(func() ast.ItemNode { return ast.NewUintNode(2, 65535) })
+	add(func() ast.ItemNode { return ast.NewUintNode(4, uint32(math.MaxUint32)) })
+	add(func() ast.ItemNode { return ast.NewUintNode(8, uint64(math.MaxUint64), 0) })
+	add(func() ast.ItemNode { return ast.NewFloatNode(4) })
+	add(func() ast.ItemNode {
+		return ast.NewFloatNode(4, float32(0), float32(1.5), float32(-0.1), float32(math.MaxFloat32), float32(math.SmallestNonzeroFloat32), float32(1e21), float32(1e-7), "fv")
+	})
+	add(func() ast.ItemNode {
+		return ast.NewFloatNode(8, 0.0, 0.1, -2.5, math.MaxFloat64, math.SmallestNonzeroFloat64, 1e21, 1e20, 1e-7, 123456789.125, "gv")
+	})
+	add(func() ast.ItemNode { return ast.NewListNode() })
+	add(func() ast.ItemNode { return ast.NewListNode("xv", "yv") })
+	add(func() ast.ItemNode {
+		return ast.NewListNode(ast.NewIntNode(1, 1), ast.NewListNode(ast.NewASCIINode("x\"y"), ast.NewBooleanNode(true)), ast.NewListNode(), ast.NewUintNode(2, 7))
+	})
+	add(func() ast.ItemNode { return ast.NewListNode(ast.NewUintNode(1, "av"), "nv", "...[0]", ast.NewASCIINode("end")) })
+	add(func() ast.ItemNode {
+		return ast.NewListNode(ast.NewListNode(ast.NewUintNode(1, "av"), "...[0]"), "...[1]", ast.NewListNode(ast.NewASCIINodeVariable("sv", 1, 2), "qv", "...[2]"))
+	})
+	add(func() ast.ItemNode {
+		return ast.NewListNode(ast.NewListNode(ast.NewListNode(ast.NewBinaryNode("bv"), "...[0]"), "...[1]"), "...[2]")
+	})
+	return items
+}
+
+func racMessagePool() []*ast.DataMessage {
+	var msgs []*ast.DataMessage
+	add := func(f func() *ast.DataMessage) {
+		defer func() { recover() }()
+		msgs = append(msgs, f())
+	}
+	items := racItemPool()
+	// every item under one header
+	for _, it := range items {
+		it := it
+		add(func() *ast.DataMessage { return ast.NewDataMessage("msg", 1, 1, 1, "H->E", it) })
+	}
+	// every header shape with a few items
+	few := []ast.ItemNode{items[0], items[len(items)-4], items[len(items)-3]}
+	for _, name := range []string{"", "nv", "Name_1.x-y", "\u540d\u524d", "a<b", "q\"r"} {
+		for _, st := range []int{0, 1, 64, 127} {
+			for _, fn := range []int{0, 1, 2, 128, 255} {
+				for w := 0; w <= 2; w++ {
+					for _, dir := range []string{"H->E", "H<-E", "H<->E"} {
+						for _, it := range few {
+							name, st, fn, w, dir, it := name, st, fn, w, dir, it
+							add(func() *ast.DataMessage { return ast.NewDataMessage(name, st, fn, w, dir, it) })
+						}
+					}
+				}
+			}
+		}
+	}
+	return msgs
+}
